@@ -582,6 +582,7 @@ def reduce_minmax(I, a, ismin):
             I.throw('ValueError', 'zero-size array to reduction operation')
         from .builtins2 import _minmax
         return _minmax(I, (VList(items),), {}, ismin)
+    a = _snapshot(a)
     m = I.ctx.fresh('amin' if ismin else 'amax', 'real')
     k = I.ctx.fresh('argm', 'int')
     I.ctx.fact(z3.And(k.e >= 0, k.e < zint(n)))
@@ -590,6 +591,14 @@ def reduce_minmax(I, a, ismin):
     add_univ(I, n, f)
     add_witness(I, n, k)
     return m
+
+
+def _snapshot(a):
+    """the array as it is now (same shape, the element function it has at this moment): facts stated about it are not affected by
+    later in-place stores"""
+    b = Arr(a.shape, a.fn, a.dtype)
+    b.unit = getattr(a, 'unit', None)
+    return b
 
 
 def _inrange(w, n):
@@ -729,6 +738,9 @@ def np_any(I, x, **kw):
             r = I.ctx.fresh('any', 'bool')
             if not isinstance(x.shape, tuple):
                 raise Unsupported('np.any over an array of unknown rank')
+            # the reduction speaks about the contents the array has NOW: the universal fact is instantiated later, and a store into the
+            # array in between must not change what it says (it used to: a store under `if not a.any():` made the path contradictory)
+            x = _snapshot(x)
             if len(x.shape) == 1:
                 n = x.shape[0]
                 add_univ(I, n, lambda j: z3.Implies(zbool(x.fn((j,))), r.e))
@@ -759,6 +771,7 @@ def np_all(I, x, **kw):
                 raise Unsupported('np.all over symbolic N-D array')
             # all over a symbolic-size array: an opaque boolean r with  r => every instance,  not r => a witness that fails
             r = I.ctx.fresh('all', 'bool')
+            x = _snapshot(x)
             if len(x.shape) == 1:
                 n = x.shape[0]
                 add_univ(I, n, lambda j: z3.Implies(r.e, zbool(x.fn((j,)))))
